@@ -2,6 +2,7 @@
    payloads:
      c05.c1p_decide (nc rows)            rows = ((0|1 ...) ...)           -> bool
      c05.c1p_check  (nc rows perm)       perm = (j ...)                   -> bool
+     c05.c1p_core   (nc rows ridx cols)  submatrix certificate of a negative verdict -> bool
      c05.X_decide   (alts ballots)       X in ci cei vi vei wsc de part part2 -> bool
      c05.X_check    (alts ballots w)     w = candidate order / ballot order / partition (list of lists)
      c05.de_check   (alts ballots (vpr ap))   vpr = (((num den) (num den)) ...)  ap = ((alt (num den)) ...)
@@ -21,6 +22,10 @@ Definition dQ (v : val) : Q := Qmake (dZ (dnth 0 v)) (Z.to_pos (dZ (dnth 1 v))).
 Definition op_c1p_decide (v : val) : val := ebool (c1p_decide (d_rows (dnth 1 v)) (dnat (dnth 0 v))).
 Definition op_c1p_check (v : val) : val :=
   ebool (c1p_check (d_rows (dnth 1 v)) (dnat (dnth 0 v)) (d_perm (dnth 2 v))).
+
+(* (nc rows ridx cols) *)
+Definition op_c1p_core (v : val) : val :=
+  ebool (c1p_core_refuted (d_rows (dnth 1 v)) (dnat (dnth 0 v)) (d_perm (dnth 2 v)) (d_perm (dnth 3 v))).
 
 Definition dec2 (f : list N -> list (list N) -> bool) (v : val) : val :=
   ebool (f (d_alts (dnth 0 v)) (d_ballots (dnth 1 v))).
@@ -43,6 +48,7 @@ Definition e_parts (o : option (list (list N))) : val := eoption (elist (elist e
 
 Definition ops : optable :=
   [ ("c05.c1p_decide", op_c1p_decide); ("c05.c1p_check", op_c1p_check);
+    ("c05.c1p_core", op_c1p_core);
     ("c05.ci_decide", dec2 ci_decide);   ("c05.ci_check", chk_alt ci_check);
     ("c05.cei_decide", dec2 cei_decide); ("c05.cei_check", chk_alt cei_check);
     ("c05.vi_decide", dec2 vi_decide);   ("c05.vi_check", chk_idx vi_check);
